@@ -2,7 +2,8 @@ import CnbVerif.Base.Proto
 import CnbVerif.Model.Platform
 import CnbVerif.Spec.ContextSpec
 /-! Driver glue for C06: parse what the platform supplied, run the model of the context assembly, judge the context the
-real executable dumped. Documents decoded by the `toml` crate (plan, store, descriptor) travel as canonical text. The
+real executable dumped. The five paths the platform hands over travel as the texts it wrote (field 11, `$T` = the temp root; the
+harness substitutes the root on the way in and puts `$T` back on the way out, nothing else). Documents decoded by the `toml` crate (plan, store, descriptor) travel as canonical text. The
 model decides "is a `String`" with its own `utf8Valid`, the specification with core Lean's `ByteArray.validateUTF8`. -/
 namespace CnbVerif.DriverC06
 open CnbVerif CnbVerif.Platform
@@ -91,8 +92,33 @@ def othersOk (s : String) : Bool :=
 
 def tRoot : Bytes := strBytes "$T/"
 
+/-- the path texts of field 11, as written: `hex(layers)/hex(platform)/hex(plan)/hex(bp)/hex(cwd)`, layers `-` in detect.
+A text is not empty and holds no NUL (the OS would refuse it as an argument); the path the working directory is entered by is
+absolute (starts with `/` or with `$T`). Nothing else is asked of a text: it is opaque. -/
+structure PathTexts where
+  layers : Option Bytes
+  plat : Bytes
+  plan : Bytes
+  bp : Bytes
+  cwdBy : Bytes
+
+def textOk (b : Bytes) : Bool := !b.isEmpty && !b.contains 0
+
+def parseTexts (phase : String) (s : String) : Option PathTexts :=
+  match s.splitOn "/" with
+  | [l, p, pl, b, c] =>
+    let layers? : Option (Option Bytes) :=
+      if l = "-" then (if phase = "detect" then some none else none)
+      else if phase = "detect" then none else (hexDecode l).map some
+    match layers?, hexDecode p, hexDecode pl, hexDecode b, hexDecode c with
+    | some layers, some p, some pl, some b, some c =>
+      if (match layers with | some t => textOk t | none => true) && textOk p && textOk pl && textOk b && textOk c && (c.head? == some 47 || c.take 2 == [36, 84])
+      then some ⟨layers, p, pl, b, c⟩ else none
+    | _, _, _, _, _ => none
+  | _ => none
+
 def parseInputs (fields : List String) : Option (String × Inputs String) :=
-  match (if fields.length = 11 then (if othersOk (fields.getD 10 "") then some (fields.take 10) else none) else some fields) with
+  match (if fields.length = 11 ∨ fields.length = 12 then (if othersOk (fields.getD 10 "") then some (fields.take 10) else none) else some fields) with
   | none => none
   | some fields10 =>
   match fields10 with
@@ -101,14 +127,25 @@ def parseInputs (fields : List String) : Option (String × Inputs String) :=
     if !(dparts.length = 3 ∨ (dparts.length = 4 ∧ flagsOk (dparts.getD 3 ""))) then none else
     match (dparts.take 3).map hexDecode, parseVars vars, parsePlat plat with
     | [some app, some bp, some layers], some vars, some plat =>
+      -- without field 11 every path is written `$T/<name>`; with it the texts are the field's. The working directory is the
+      -- directory `$T/<app>` whatever path it is entered by (the harness refuses a text that leads elsewhere), and `getcwd`
+      -- names a directory by its link-free absolute path: `$T/<app>`.
+      let texts? : Option PathTexts :=
+        if fields.length = 12 then parseTexts phase (fields.getD 11 "")
+        else some ⟨if phase = "detect" then none else some (tRoot ++ layers), strBytes "$T/plat",
+                   strBytes (if phase = "detect" then "$T/work/plan.toml" else "$T/work/bpplan.toml"), tRoot ++ bp, tRoot ++ app⟩
+      match texts? with
+      | none => none
+      | some tx =>
       if phase = "detect" then
         if planX = "-" ∧ storeX = "-" then
-          some (phase, { cwd := tRoot ++ app, bpDir := tRoot ++ bp, layersDir := none, vars := vars, plat := plat,
-                         plan := none, store := none, desc := descX })
+          some (phase, { cwd := tRoot ++ app, bpDir := tx.bp, layersDir := none, platArg := tx.plat, planArg := tx.plan,
+                         vars := vars, plat := plat, plan := none, store := none, desc := descX })
         else none
       else if phase = "build" then
         if planX = "-" ∨ storeX = "-" then none else
-        some (phase, { cwd := tRoot ++ app, bpDir := tRoot ++ bp, layersDir := some (tRoot ++ layers), vars := vars, plat := plat,
+        some (phase, { cwd := tRoot ++ app, bpDir := tx.bp, layersDir := tx.layers, platArg := tx.plat, planArg := tx.plan,
+                       vars := vars, plat := plat,
                        plan := some planX, store := if storeX = "none" then none else some storeX, desc := descX })
       else none
     | _, _, _ => none
